@@ -419,3 +419,54 @@ def r10_14(rep):
         ok = opaque_negated(fm, c)
         rep.check(ok, "fam-not-for-opaque@flex_array_member", "an opaque member type ends the search" if ok else
                   "the nested search descends into a member type without asking whether it is opaque", fm.loc(c))
+
+
+@RULES.rule("R10.15", "the hand-written Debug impl asks at every step whether the type was vouched for (shared with C08 R8.14)", floor=3)
+def r10_15(rep):
+    """`Item::impl_debug` recurses through typedefs, references and array elements.  The question "is this item allowlisted" has to
+    be asked inside that recursion: asked once for the member's own type, `typedef struct Blocked blocked_t; struct S { blocked_t t; }`
+    and `struct Blocked arr[2]` reach the blocklisted struct unchecked and `impl Debug for S` needs `Blocked: Debug` (seeded change)."""
+    import c08
+    c08.r8_14(rep)
+
+
+@RULES.rule("R10.16", "`--opaque-type` patterns are matched for every item, whatever its kind or name", floor=1)
+def r10_16(rep):
+    """`Item::is_opaque` is `annotation || type says so || opaque_by_name(path)`.  The path of an anonymous struct
+    (`ns::S__bindgen_ty_1`) is matched by `--opaque-type 'ns::.*'` like any other; restricting the by-name test (to types with a name
+    of their own, say) lets the anonymous members of an opaque class come out with all their fields and bit-field accessors
+    (seeded change)."""
+    prog = rep.prog
+    b = rep.need(prog.impl_fn("ir::item::IsOpaque", "ir::item::Item", "is_opaque"), "<Item as IsOpaque>::is_opaque")
+    calls = [c for c in b.calls(lambda x: (x.get("callee") or x.get("resolved") or "").endswith("BindgenContext::opaque_by_name"))]
+    rep.need(calls, "ctx.opaque_by_name(..) in Item::is_opaque")
+    for c in calls:
+        extra = []
+        for pol, kind, g in b.guards(c, nested=True):
+            if kind != "cond":
+                extra.append(kind)
+                continue
+            src = b.canon(g, 8)
+            first_two = "Annotations::opaque" in src or "is_some_and" in src and "is_opaque" in src or "ty::Type as ir::item::IsOpaque" in src
+            if first_two and not pol:
+                continue
+            if first_two and pol and False:
+                continue
+            # `a || b || c`: c runs when (a || b) is false
+            if not pol and ("Annotations::opaque" in src or "is_opaque" in src):
+                continue
+            if in_assert(b, g):
+                continue
+            extra.append(("" if pol else "!") + src[:70])
+        arg = b.canon(c["args"][-1], 6)
+        ok = not extra and "path_for_allowlisting(param:self" in arg
+        rep.check(ok, "by-name-for-every-item", "reached whenever the first two tests say no; matched against the item's own path" if ok else
+                  "the by-name test only runs when %s: items outside that condition ignore `--opaque-type`" % ", ".join(extra) if extra else
+                  "the by-name test is given `%s`" % arg[:80], b.loc(c))
+
+
+def in_assert(b, n):
+    names = {"assert", "debug_assert", "assert_eq", "debug_assert_eq", "extra_assert"}
+    if b.macro_name(n) in names:
+        return True
+    return any(b.macro_name(a) in names for a in b.ancestors(n))
